@@ -76,6 +76,6 @@ structure WF (P : Prims) (f : Fields) : Prop where
   salt_len : f.salt.length = 8
   addr_len : f.addr.length = 4 ∨ f.addr.length = 0
   ranges : f.cipher < 256 ∧ f.mac < 256 ∧ f.zip < 256 ∧ f.time0 < 2 ^ 32 ∧ f.ttl < 2 ^ 32 ∧ f.uid < 2 ^ 32 ∧
-           f.gid < 2 ^ 32 ∧ f.authUid < 2 ^ 32 ∧ f.authGid < 2 ^ 32 ∧ f.payload.length < 2 ^ 31
+           f.gid < 2 ^ 32 ∧ f.authUid < 2 ^ 32 ∧ f.authGid < 2 ^ 32 ∧ f.payload.length ≤ 1048576
 
 end Munge.SpecV3
